@@ -147,7 +147,16 @@ def run(tier):
         corpus = ec.corpus_specs(PROP)
         names = name_specs()
         gen = [s for prof, k in n.items() for s in ec.gen_specs(chk.seed, prof, k)]
-        specs = corpus + names + gen
+        # the same compile/run matrix on the output written under the other output options (-p, -m, -p -m): a share of the generated modules
+        optv = []
+        nopt = 4 if tier == "quick" else 20
+        for prof in n:
+            for s_ in [g for g in gen if g.get("profile") == prof][:nopt]:
+                for opts in ec.OPTION_SETS:
+                    v = ec.option_variant(s_, opts)
+                    if v is not None:
+                        optv.append(v)
+        specs = corpus + names + gen + optv
         results = ec.run_jobs(make_jobs(env, specs, builds))
         ops, outcomes, profs = {}, {}, {}
         for res in results:
